@@ -42,6 +42,7 @@ public:
     {
         mLog->cur->add(Val::List({Val::Int(30), Val::List({Val::Int(30), Val::Int(mId)})}));
         if (mLog->nested) { Val *mine = mLog->cur; mLog->nested(); mLog->cur = mine; }
+        if (mFlag == 3) throw std::runtime_error("middleware");      // leaves process() by an exception: it has not accepted (family srvd only)
         bool accept = mFlag == 0 ? false : (mFlag == 2 ? socket->headers().contains("X-Pass") : true);
         if (!accept) {
             // refusal style by id: a complete 403, nothing at all, or a fragment of its own with the connection left open
@@ -228,6 +229,53 @@ static Val run_srvi(const Val &c)
     return out;
 }
 
+// family "srvd": the root handler's route() called DIRECTLY by the application (not from a slot, so that an exception a middleware
+// throws can leave route() and be caught by the caller): a bare Socket over SimTcp, no Server.  case as family srv.
+static Val run_srvd(const Val &c)
+{
+    Log log;
+    QObject scope;
+    if (!c.at(0).size()) return badcase();
+    Handler *root = build(c.at(0), &log, &scope);
+    SimTcp *tcp = new SimTcp;
+    QPointer<SimTcp> tcpGuard(tcp);
+    tcp->onWrite = [&log](const QByteArray &b) { log.v.add(Val::List({Val::Int(5), Val::Bytes(b)})); };
+    tcp->onClose = [&log]() { log.v.add(Val::List({Val::Int(6)})); };
+    QPointer<Socket> sock;
+    bool pending = false;
+    long long opIndex = 0;
+    for (auto &op : c.at(1).l) {
+        log.v.add(Val::List({Val::Int(20), Val::Int(opIndex++)}));
+        switch (op.at(0).asInt()) {
+        case 0: if (sock) { if (tcpGuard) tcp->feed(op.at(1).asBytes()); } else if (tcpGuard) tcp->queue(op.at(1).asBytes()); break;
+        case 3: QCoreApplication::sendPostedEvents(nullptr, QEvent::MetaCall); break;
+        case 4:
+            if (!sock && tcpGuard) {
+                Socket *s = new Socket(tcp);
+                sock = s;
+                QObject::connect(s, &Socket::headersParsed, [&log, &pending, s]() {
+                    Val q = Val::List();
+                    auto qs = s->queryString();
+                    for (auto i = qs.constBegin(); i != qs.constEnd(); ++i) q.add(Val::List({Val::Str(i.key()), Val::Str(i.value())}));
+                    log.v.add(Val::List({Val::Int(8), Val::Int(int(s->method())), Val::Bytes(s->rawPath()), Val::Str(s->path()), q,
+                                         headersVal(s->headers()), Val::Int(s->contentLength())}));
+                    log.v.add(Val::List({Val::Int(0), Val::Int(s->isOpen() ? s->bytesAvailable() : -1)}));
+                    pending = true;
+                });
+            }
+            break;
+        default: return badcase();
+        }
+        if (pending && sock) {
+            pending = false;
+            try { root->route(sock, sock->path().mid(1)); } catch (const std::exception &) { }
+        }
+    }
+    if (sock) delete sock.data(); else if (tcpGuard) delete tcp;
+    QCoreApplication::sendPostedEvents(nullptr, QEvent::DeferredDelete);
+    return log.v;
+}
+
 // oracle: (pattern path) -> (matched restUtf8 (cap..))
 static Val run_rxprobe(const Val &c)
 {
@@ -244,5 +292,6 @@ void reg_srv()
     registerFamily("srv", run_srv);
     registerFamily("srvm", run_srvm);
     registerFamily("srvi", run_srvi);
+    registerFamily("srvd", run_srvd);
     registerFamily("rxprobe", run_rxprobe);
 }
